@@ -23,6 +23,7 @@ import (
 	"os"
 	"strings"
 	"sync"
+	"sync/atomic"
 	"testing"
 	"time"
 
@@ -65,9 +66,14 @@ func vhIpcClass(err error) string {
 	return "other"
 }
 
+var vhNoResponse int32 // requests that got no response so far; the batch is cut short once the server is clearly wedged
+
 func vhOne(addr string, i *IPC, args []string) string {
 	if len(args) < 5 || args[0] != "req" {
 		return "!badcase"
+	}
+	if atomic.LoadInt32(&vhNoResponse) >= 24 {
+		return "status=0 body=x reuse=noresponse ms=0 ipc=- resp=x dec=none"
 	}
 	raw := vhHex(args[1])
 	start := time.Now()
@@ -76,7 +82,7 @@ func vhOne(addr string, i *IPC, args []string) string {
 		return "!dial"
 	}
 	defer conn.Close()
-	conn.SetDeadline(time.Now().Add(20 * time.Second))
+	conn.SetDeadline(time.Now().Add(12 * time.Second))
 	go func() { conn.Write(raw) }()
 	br := bufio.NewReader(conn)
 	method := "GET"
@@ -87,6 +93,7 @@ func vhOne(addr string, i *IPC, args []string) string {
 	status, body, reuse := 0, []byte(nil), "closed"
 	if err != nil {
 		reuse = "noresponse"
+		atomic.AddInt32(&vhNoResponse, 1)
 	} else {
 		status = resp.StatusCode
 		body, err = io.ReadAll(resp.Body)
@@ -125,26 +132,40 @@ func vhOne(addr string, i *IPC, args []string) string {
 		}
 	}
 	ipc, respHex, dec := "-", "x", "none"
-	if args[2] != "none" {
+	if args[2] != "none" && atomic.LoadInt32(&vhNoResponse) < 24 {
 		twin := vhHex(args[3])
-		var response []byte
-		var err error
-		switch args[2] {
-		case "client":
-			err = i.ClientOffers(messages.Arg{Body: twin, RemoteAddr: ""}, &response)
-		case "proxy":
-			err = i.ProxyPolls(messages.Arg{Body: twin, RemoteAddr: "192.0.2.9:1"}, &response)
-		case "answer":
-			err = i.ProxyAnswers(messages.Arg{Body: twin, RemoteAddr: ""}, &response)
+		type ipcOut struct {
+			response []byte
+			err      error
 		}
-		ipc = vhIpcClass(err)
-		if err == nil {
-			respHex = "x" + hex.EncodeToString(response)
-			if args[2] == "client" {
-				if r, derr := messages.DecodeClientPollResponse(response); derr == nil {
-					dec = "x" + hex.EncodeToString([]byte(r.Answer)) + ":x" + hex.EncodeToString([]byte(r.Error))
+		ch := make(chan ipcOut, 1)
+		go func() {
+			var response []byte
+			var err error
+			switch args[2] {
+			case "client":
+				err = i.ClientOffers(messages.Arg{Body: twin, RemoteAddr: ""}, &response)
+			case "proxy":
+				err = i.ProxyPolls(messages.Arg{Body: twin, RemoteAddr: "192.0.2.9:1"}, &response)
+			case "answer":
+				err = i.ProxyAnswers(messages.Arg{Body: twin, RemoteAddr: ""}, &response)
+			}
+			ch <- ipcOut{response, err}
+		}()
+		select {
+		case o := <-ch:
+			ipc = vhIpcClass(o.err)
+			if o.err == nil {
+				respHex = "x" + hex.EncodeToString(o.response)
+				if args[2] == "client" {
+					if r, derr := messages.DecodeClientPollResponse(o.response); derr == nil {
+						dec = "x" + hex.EncodeToString([]byte(r.Answer)) + ":x" + hex.EncodeToString([]byte(r.Error))
+					}
 				}
 			}
+		case <-time.After(10 * time.Second):
+			ipc = "blocked"
+			atomic.AddInt32(&vhNoResponse, 1)
 		}
 	}
 	if len(body) > 4096 {
@@ -206,7 +227,7 @@ func TestVerifHttpDriver(t *testing.T) {
 	wg.Wait()
 	// liveness after everything: the server still answers
 	alive := "dead"
-	if r, err := http.Get("http://" + addr + "/debug"); err == nil {
+	if r, err := (&http.Client{Timeout: 10 * time.Second}).Get("http://" + addr + "/debug"); err == nil {
 		io.Copy(io.Discard, r.Body)
 		r.Body.Close()
 		if r.StatusCode == 200 {
